@@ -7,6 +7,7 @@ package main
 // are collected from its log files.
 
 import (
+	vnet "github.com/jimsnab/go-redisemu/verifrt/vnet"
 	"bufio"
 	"fmt"
 	"os"
@@ -54,7 +55,11 @@ type raceScenario struct {
 
 func (rs *raceScenario) scenario() *Scenario {
 	mo := strings.Contains(rs.name, "CLIENT_LIST") || strings.Contains(rs.name, "CLIENT_KILL") || strings.Contains(rs.name, "kill")
-	return &Scenario{Name: rs.name, Body: rs.body, MapOrder: mo}
+	sc := &Scenario{Name: rs.name, Body: rs.body, MapOrder: mo}
+	if strings.HasPrefix(rs.special, "wire") {
+		sc.BoundDelta = -1 // a socket connection takes ~40 scheduling points per command
+	}
+	return sc
 }
 
 func (rs *raceScenario) body(x *Exec) {
@@ -97,6 +102,22 @@ func (rs *raceScenario) body(x *Exec) {
 		})
 	case "saver":
 		verifrt.GoNamed("saver", func() { vi.Save() })
+	case "wire", "wire-kill", "wire-close":
+		// a connection of the socket kind (clientCxn state machine) next to the in-process ones
+		srv, cli := vnet.Pipe("127.0.0.1:6379", "127.0.0.1:40009")
+		id := vi.NewCxn(srv)
+		verifrt.GoNamed("wire", func() {
+			w := &wcli{c: cli, name: "wire"}
+			w.call("SET", "ks", "w")
+			if rs.special == "wire-close" {
+				cli.Close()
+				return
+			}
+			w.call("GET", "ks")
+		})
+		if rs.special == "wire-kill" {
+			verifrt.GoNamed("killer", func() { obs.Do("CLIENT", "KILL", "ID", fmt.Sprint(id)) })
+		}
 	}
 	verifrt.AwaitQuiescence()
 }
@@ -134,6 +155,31 @@ func raceScenarios(tier string) []*Scenario {
 		}
 		add(&raceScenario{name: "exec/" + label(t), threads: [][][]string{tx, {t}}})
 		add(&raceScenario{name: "blocked/" + label(t), threads: [][][]string{blk, {t}, {{"RPUSH", "kb", "x"}}}})
+	}
+	// socket connections: the clientCxn state machine against commands, CLIENT KILL and a peer close
+	for i, t := range raceTemplates {
+		if tier != "thorough" && i%8 != 0 {
+			continue
+		}
+		add(&raceScenario{name: "wire/" + label(t), threads: [][][]string{{t}}, special: "wire"})
+	}
+	add(&raceScenario{name: "wire-kill/CLIENT_LIST", threads: [][][]string{{{"CLIENT", "LIST"}}}, special: "wire-kill"})
+	add(&raceScenario{name: "wire-kill/SET_ks_v", threads: [][][]string{{{"SET", "ks", "v"}}}, special: "wire-kill"})
+	add(&raceScenario{name: "wire-close/CLIENT_LIST", threads: [][][]string{{{"CLIENT", "LIST"}}}, special: "wire-close"})
+	add(&raceScenario{name: "wire-close/LPOP_kl", threads: [][][]string{{{"LPOP", "kl"}}}, special: "wire-close"})
+	// the real Start/Close (C20's scenarios, here only for what the race detector says about them)
+	for _, sc := range lifeScenarios(tier) {
+		switch sc.Name {
+		case "close/idle", "close/blocked", "race/command-during-close", "race/connect-during-close", "persist/idle", "two-instances/idle":
+			if tier != "thorough" && sc.Name != "close/idle" && sc.Name != "close/blocked" {
+				continue
+			}
+			c := *sc
+			c.Name = "life/" + sc.Name
+			c.Check = nil
+			c.BoundDelta = -1
+			out = append(out, &c)
+		}
 	}
 	add(&raceScenario{name: "exec||exec", threads: [][][]string{tx, tx}})
 	add(&raceScenario{name: "watch-exec||writers", threads: [][][]string{{{"WATCH", "ks", "kl"}, {"MULTI"}, {"INCR", "ks"}, {"EXEC"}}, {{"SET", "ks", "5"}}, {{"RPUSH", "kl", "w"}}}})
